@@ -151,7 +151,8 @@ def paths_under(ff: FuncFacts, val: Dict[str, bool], start: Optional[Node] = Non
                 elif isinstance(a.value, (ast.Tuple, ast.List, ast.Dict, ast.Set, ast.JoinedStr, ast.Lambda, ast.ListComp, ast.DictComp, ast.SetComp)) or (
                         isinstance(a.value, ast.Constant) and a.value.value is not None) or (
                         # a call yields a non-None value only when it is visibly a construction: ``ClassName(...)`` / a builtin container
-                        isinstance(a.value, ast.Call) and (norm(a.value.func).split('.')[-1][:1].isupper() or norm(a.value.func) in ('dict', 'list', 'set', 'tuple', 'frozenset', 'str', 'int', 'bool'))):
+                        isinstance(a.value, ast.Call) and (norm(a.value.func).split('.')[-1][:1].isupper() or norm(a.value.func) in ('dict', 'list', 'set', 'tuple', 'frozenset', 'str', 'int', 'bool'))) or (
+                        isinstance(a.value, ast.Call) and _declared_non_none(ff, a.value)):
                     v[f'{t} is None'] = False
         succs = [(t, l) for t, l in n.succ if l not in ('exc', 'uncaught', 'handler')]
         if n.kind == 'test':
@@ -178,6 +179,23 @@ def paths_under(ff: FuncFacts, val: Dict[str, bool], start: Optional[Node] = Non
         for t, l in succs:
             stack.append((t, path, v, seen))
     return out
+
+
+def _declared_non_none(ff: FuncFacts, call: ast.Call) -> bool:
+    """The call goes to ONE function of the program whose declared return type leaves no room for None (``-> kiwipy.Future``; the package is type-checked)."""
+    try:
+        t = ff.eng.calls.resolve_call(ff.func, call)
+    except Exception:
+        return False
+    if t.uncontrolled or t.unknown or t.ctor is not None or len(t.funcs) != 1:
+        return False
+    r = getattr(t.funcs[0].node, 'returns', None)
+    if r is None:
+        return False
+    txt = norm(r)
+    if isinstance(r, ast.Constant) and isinstance(r.value, str):
+        txt = r.value
+    return not any(w in txt for w in ('None', 'Optional', 'Any', 'object')) and bool(txt) and not isinstance(t.funcs[0].node, ast.Lambda)
 
 
 def _identity_on_path(path: List[Node], test: ast.expr) -> Optional[bool]:
